@@ -119,8 +119,17 @@ const CALLGSUBR: u8 = 29;
 
 pub fn cff2_table(charstring: &[u8]) -> Vec<u8> {
     let cat = |parts: &[&[u8]]| parts.concat();
-    let gsubrs = index2(&[cat(&[&num(-107), &[CALLGSUBR]]), vec![], cat(&[&num(-107), &[CALLSUBR]])]);
-    let lsubrs = index2(&[cat(&[&num(-107), &[CALLSUBR]]), vec![], cat(&[&num(-107), &[CALLGSUBR]])]);
+    cff2_table_with(
+        charstring,
+        &[cat(&[&num(-107), &[CALLGSUBR]]), vec![], cat(&[&num(-107), &[CALLSUBR]])],
+        &[cat(&[&num(-107), &[CALLSUBR]]), vec![], cat(&[&num(-107), &[CALLGSUBR]])],
+    )
+}
+
+/// The CFF2 table with explicit global / local subroutine lists.
+pub fn cff2_table_with(charstring: &[u8], gsubr_list: &[Vec<u8>], lsubr_list: &[Vec<u8>]) -> Vec<u8> {
+    let gsubrs = index2(gsubr_list);
+    let lsubrs = index2(lsubr_list);
     let vstore = var_store();
     let top_len = 6 + 6 + 7;
     let mut private = dict_int(6);
@@ -174,6 +183,15 @@ impl Parts {
             base: crate::cffprog::Parts::new(),
             fvar,
         }
+    }
+    pub fn build_with_table(&self, cff2: Vec<u8>) -> Vec<u8> {
+        let mut fb = FontBuilder::new();
+        for (tag, data) in self.base.metric_tables() {
+            fb.add_raw(tag, data);
+        }
+        fb.add_raw(Tag::new(b"fvar"), self.fvar.clone());
+        fb.add_raw(Tag::new(b"CFF2"), cff2);
+        fb.build()
     }
     pub fn build(&self, charstring: &[u8]) -> Vec<u8> {
         let mut fb = FontBuilder::new();
